@@ -100,7 +100,7 @@ def repo_clean():
     return out.strip() == ""
 
 
-def run(seed_ids, all_props, tier):
+def run(seed_ids, all_props, tier, extra_props=None):
     seeded = os.path.join(ROOT, "seeded")
     ids = seed_ids or sorted(os.listdir(seeded))
     props = [json.loads(l)["id"] for l in open(os.path.join(ROOT, "properties.jsonl"))]
@@ -116,9 +116,9 @@ def run(seed_ids, all_props, tier):
             print("%s: patch does not apply: %s" % (sid, out))
             results[sid] = {"property": target, "error": "patch does not apply"}
             continue
-        res = {"property": target, "tier": tier, "checks": {}}
+        res = results.get(sid) if (extra_props and sid in results and "checks" in results[sid]) else {"property": target, "tier": tier, "checks": {}}
         try:
-            todo = props if all_props else [target]
+            todo = props if all_props else ([target] if not extra_props else extra_props)
             for p in todo:
                 t0 = time.time()
                 rc, out = sh([os.path.join(ROOT, "check"), p, tier], cwd=ROOT, timeout=7200)
@@ -170,7 +170,11 @@ def main():
         if "--tier" in a:
             tier = a[a.index("--tier") + 1]
             rest = [x for x in rest if x != tier]
-        return run(rest, "--all-props" in a, tier)
+        extra = None
+        if "--props" in a:
+            extra = a[a.index("--props") + 1].split(",")
+            rest = [x for x in rest if x != a[a.index("--props") + 1]]
+        return run(rest, "--all-props" in a, tier, extra)
     print(__doc__)
     return 2
 
